@@ -155,7 +155,7 @@ let cmd_sched_replay () =
        let c = { cN = n; ccoe = coe; cgated = gated; cprog = List.rev !jobsr; cwctx = wctx } in
        if not (wf_cfg_b c) then print_endline "BADCFG"
        else
-         match replay c (init c) O (List.rev !acts) with
+         match replay c (initc c) O (List.rev !acts) with
          | RpOk s ->
            Printf.printf "OK final=%b ret=%s\n" (is_final s)
              (match s.cp with CRet r -> show_errs r | _ -> "none")
